@@ -222,6 +222,79 @@ fn run_leaf(ops: &[Op], prefix: &[Op], with_replica: bool, rep: &Report, stats: 
     stats.add("executions", 1);
 }
 
+/// Failed calls emit nothing: for the last call of `full`, every storage operation it issues is
+/// failed once; whenever the call then reports an error, subscribers must have received nothing.
+fn run_fault_leaf(full: &[Op], with_replica: bool, rep: &Report, stats: &Stats) {
+    let Some(last) = full.last() else { return };
+    if matches!(last, Op::Reopen | Op::RReopen) {
+        return;
+    }
+    let replica_op = last.is_replica_op();
+    let prep = |sys: &mut Sys| -> bool {
+        for op in &full[..full.len() - 1] {
+            let o = sys.exec(op);
+            if matches!(o, Out::Panic(_)) {
+                return false;
+            }
+        }
+        true
+    };
+    // dry run to learn the range of storage operations of the last call
+    let mut sys = Sys::new(with_replica, CacheCfg::Off);
+    sys.altered = Some(alter_for_events);
+    if !prep(&mut sys) {
+        return;
+    }
+    let world = |sys: &Sys| if replica_op { sys.rp.as_ref().unwrap().w.clone() } else { sys.wr.w.clone() };
+    let n0 = crate::env::nops(&world(&sys));
+    let o = sys.exec_real(last);
+    if matches!(o, Out::Panic(_)) {
+        return;
+    }
+    let n1 = crate::env::nops(&world(&sys));
+    drop(sys);
+    for k in n0..n1 {
+        crate::sup::set_case(&json!({"prop": "C13", "what": "events-fault", "hist": full, "replica": with_replica, "k": k - n0}).to_string());
+        let mut sys = Sys::new(with_replica, CacheCfg::Off);
+        sys.altered = Some(alter_for_events);
+        if !prep(&mut sys) {
+            return;
+        }
+        let core = if replica_op { sys.rp.as_ref().and_then(|r| r.core.as_ref()) } else { sys.wr.core.as_ref() };
+        let Some(core) = core else { return };
+        let mut rx = core.event_subscribe();
+        let mut rx2 = core.event_subscribe();
+        let w = world(&sys);
+        w.lock().unwrap().fail_at = Some(k);
+        let out = sys.exec_real(last);
+        w.lock().unwrap().fail_at = None;
+        stats.add("faulted_calls", 1);
+        let failed = match &out {
+            Out::Err(_) => true,
+            Out::Ok(OpRes::Synced { applied: Some(Err(_)), .. }) => true,
+            _ => false,
+        };
+        if !failed {
+            continue;
+        }
+        let got = drain(&mut rx);
+        let got2 = drain(&mut rx2);
+        // a get of a missing block announces the Get before it touches storage; that call does not
+        // fail by a storage error at all, so only state-change events are at stake here
+        let bad: Vec<&Ev> = got.iter().filter(|e| !matches!(e, Ev::Get(_))).collect();
+        if !bad.is_empty() || got != got2 {
+            rep.violate(
+                "event-on-failed-call",
+                format!("op={} core={}", last.kind(), if replica_op { "replica" } else { "writer" }),
+                format!("after [{}] with storage operation {} of the last call failing: the call returned {} but subscribers saw {:?}", hist_brief(full), k - n0, out.brief(), got),
+                json!({"prop": "C13", "what": "events-fault", "hist": full, "replica": with_replica, "k": k - n0}),
+                full.len() * 100 + (k - n0) as usize,
+            );
+            return;
+        }
+    }
+}
+
 fn writer_alpha(m: &SysModel) -> Vec<Op> {
     let len = m.w.len();
     let mut v = vec![
@@ -261,7 +334,7 @@ fn replica_alpha(m: &SysModel) -> Vec<Op> {
     v
 }
 
-fn explore(depth: usize, prefix: Vec<Op>, with_replica: bool, rep: &Report, stats: &Stats, outcomes: &FpSet) -> u64 {
+fn explore(depth: usize, prefix: Vec<Op>, with_replica: bool, faults: bool, rep: &Report, stats: &Stats, outcomes: &FpSet) -> u64 {
     // enumerate leaves over the model, distribute over threads
     fn rec(ops: &mut Vec<Op>, m: &SysModel, depth: usize, replica: bool, out: &mut Vec<Vec<Op>>) {
         if ops.len() == depth {
@@ -293,7 +366,13 @@ fn explore(depth: usize, prefix: Vec<Op>, with_replica: bool, rep: &Report, stat
                     crate::sup::clear_case();
                     break;
                 }
-                run_leaf(&leaves_ref[i], prefix_ref, with_replica, rep, stats, outcomes, 0);
+                if faults {
+                    let mut full = prefix_ref.clone();
+                    full.extend_from_slice(&leaves_ref[i]);
+                    run_fault_leaf(&full, with_replica, rep, stats);
+                } else {
+                    run_leaf(&leaves_ref[i], prefix_ref, with_replica, rep, stats, outcomes, 0);
+                }
             });
         }
     });
@@ -307,17 +386,33 @@ pub fn run(tier: &str) -> i32 {
     let outcomes = FpSet::default();
     let mut fams = vec![];
     let d = if quick { 5 } else { 6 };
-    let n = explore(d, vec![], false, &rep, &stats, &outcomes);
+    let n = explore(d, vec![], false, false, &rep, &stats, &outcomes);
     fams.push(json!({"family": "writer: append/batch/empty batch/clear/get held+missing+out-of-range/reopen", "depth": d, "complete_histories": n}));
     for (name, wh, depth) in [
         ("replica of 3", super::c03::shape(3, 0, None), if quick { 4 } else { 5 }),
         ("replica of 5 (block 1 cleared)", super::c03::shape(5, 0, Some(1)), if quick { 4 } else { 5 }),
     ] {
-        let n = explore(depth, wh, true, &rep, &stats, &outcomes);
+        let n = explore(depth, wh.clone(), true, false, &rep, &stats, &outcomes);
         fams.push(json!({"family": format!("{name}: honest syncs, refused (altered) proofs, gets, reopen"), "depth": depth, "complete_histories": n}));
     }
+    // failed calls emit nothing: every storage operation of the last call of every history of
+    // depth 1..df failing once
+    let df = if quick { 3 } else { 4 };
+    let mut nf = 0;
+    for dd in 1..=df {
+        nf += explore(dd, vec![], false, true, &rep, &stats, &outcomes);
+        nf += explore(dd.min(if quick { 2 } else { 3 }), super::c03::shape(3, 0, None), true, true, &rep, &stats, &outcomes);
+    }
+    // five block downloads in a row: the fifth one flushes
+    run_fault_leaf(
+        &[super::c03::shape(5, 0, None), vec![Op::RSync(Req { block: Some(0), up: Some(5), ..Default::default() })], (1..5).map(|i| Op::RSync(Req { block: Some(i), ..Default::default() })).collect()].concat(),
+        true,
+        &rep,
+        &stats,
+    );
+    fams.push(json!({"family": "failed calls: every storage operation of the last call failing once", "max_depth": df, "histories": nf, "faulted_calls": stats.get("faulted_calls")}));
     let coverage = json!({
-        "evaluations": stats.get("calls"),
+        "evaluations": stats.get("calls") + stats.get("faulted_calls"),
         "distinct_nontrivial": outcomes.len(),
         "rule": "every op sequence up to the depth; a subscriber is attached before every call (all attach positions), every receiver drained after every call (< 32 undrained); per call each subscriber attached before it must have received exactly: non-empty append -> [DataUpgrade, Have{old length, batch size, drop=false}]; accepted proof -> DataUpgrade iff it carried an upgrade then Have{index,1,false} iff it carried a block; get of an index not held -> one Get{index}; held get, empty batch, refused/failed calls -> nothing; clear -> nothing or only drop=true Haves inside the range; all subscribers identical. distinct_nontrivial = distinct (op kind, observed event list) outcomes",
         "executions": stats.get("executions"),
@@ -331,6 +426,11 @@ pub fn run(tier: &str) -> i32 {
 pub fn replay(case: &Value, rep: &Report) {
     let hist = parse_hist(case);
     let with_replica = case["replica"].as_bool().unwrap_or(false);
+    if case["what"].as_str() == Some("events-fault") {
+        let stats = Stats::default();
+        run_fault_leaf(&hist, with_replica, rep, &stats);
+        return;
+    }
     let stats = Stats::default();
     let outcomes = FpSet::default();
     run_leaf(&hist, &[], with_replica, rep, &stats, &outcomes, 0);
